@@ -165,3 +165,11 @@ def is_integer(x):
 def seq_mean(x):
     import numpy as np
     return float(np.mean(np.asarray(list(x), dtype=float)))
+
+
+def lstsq_solution(A, b):
+    """Native meaning: the solution numpy.linalg.solve gives for the normal equations of (A, b)."""
+    import numpy as np
+    A = np.asarray(A, dtype=float)
+    b = np.asarray(b, dtype=float)
+    return np.linalg.solve(A.T @ A, A.T @ b)
